@@ -3,7 +3,7 @@ known findings, evidence, VIOLATION reporting."""
 import json, os, re, subprocess, sys, time, random, hashlib, shutil
 
 VERIF = os.path.dirname(os.path.dirname(os.path.abspath(__file__)))
-REPO = "/repo"
+REPO = os.environ.get("VERIF_REPO", "/repo")
 COQ = os.path.join(VERIF, "coq")
 BUILD = os.path.join(VERIF, ".build")
 HARNESS = os.path.join(VERIF, "harness")
@@ -69,11 +69,12 @@ class Ctx:
         return None
 
     # ---------------- Coq
-    def coq_build(self):
-        """make the whole development (no-op when up to date)."""
-        if not os.path.exists(os.path.join(COQ, "Makefile")):
-            sh("coq_makefile -f _CoqProject -o Makefile", cwd=COQ)
-        rc, out, err, dt = sh("timeout 3000 make -j16 2>&1", cwd=COQ, timeout=3100)
+    def coq_build(self, props=None):
+        """(Re)generate _CoqProject/Makefile when the set of .v files changed, then make the .vo of
+        the given Props files and everything they depend on (full .vo build, never -vos)."""
+        ensure_coq_makefile()
+        targets = " ".join(os.path.join("theories", p[:-2] + ".vo") for p in (props or [])) or "all"
+        rc, out, err, dt = sh("timeout 3000 make -j16 %s 2>&1" % targets, cwd=COQ, timeout=3100)
         self.cov["coq_make_s"] = round(dt, 1)
         if rc != 0:
             m = re.findall(r'File "([^"]+)", line (\d+)', out)
@@ -163,19 +164,35 @@ class Ctx:
         return sorted(bad), None
 
     # ---------------- harness
-    def build_harness(self, race=False):
-        shutil.copyfile(os.path.join(REPO, "go.sum"), os.path.join(HARNESS, "go.sum"))
-        out = os.path.join(BUILD, "vh_race" if race else "vh")
+    def build_harness(self, race=False, pid=None):
+        """Build the harness of this property from REPO's current working tree: a scratch module under
+        .build/hsrc (main.go + common*.go + <pid>*.go of /verif/harness/cmd/vh) with `replace => REPO`."""
+        pid = (pid or self.pid).lower()
+        src = os.path.join(HARNESS, "cmd", "vh")
+        tag = hashlib.sha1(REPO.encode()).hexdigest()[:8]
+        d = os.path.join(BUILD, "hsrc", "%s-%s" % (pid, tag))
+        dd = os.path.join(d, "cmd", "vh")
+        shutil.rmtree(dd, ignore_errors=True)
+        os.makedirs(dd, exist_ok=True)
+        for fn in os.listdir(src):
+            if fn.endswith(".go") and (fn == "main.go" or fn.startswith("common") or fn.startswith(pid)):
+                shutil.copyfile(os.path.join(src, fn), os.path.join(dd, fn))
+        gomod = open(os.path.join(HARNESS, "go.mod")).read().replace("=> /repo", "=> " + REPO)
+        open(os.path.join(d, "go.mod"), "w").write(gomod)
+        shutil.copyfile(os.path.join(REPO, "go.sum"), os.path.join(d, "go.sum"))
+        out = os.path.join(BUILD, "vh_%s%s_%s" % (pid, "_race" if race else "", tag))
         cmd = "go build -tags verif %s -o %s ./cmd/vh" % ("-race" if race else "", out)
-        rc, so, se, dt = sh(cmd, cwd=HARNESS, env=GOENV, timeout=1500)
+        rc, so, se, dt = sh(cmd, cwd=d, env=GOENV, timeout=1500)
         self.cov["harness_build_s"] = round(dt, 1)
         if rc != 0:
             return None, filter_go_noise(se)
+        if not race:
+            self.vh_bin = out
         return out, None
 
     def build_cmds(self, names, race=False):
         """Build obitools commands from /repo's working tree with the verif tag into .build/bin."""
-        d = os.path.join(BUILD, "bin_race" if race else "bin")
+        d = os.path.join(BUILD, ("bin_race_" if race else "bin_") + hashlib.sha1(REPO.encode()).hexdigest()[:8])
         os.makedirs(d, exist_ok=True)
         pk = " ".join("./cmd/obitools/" + n for n in names)
         env = dict(os.environ, GOPROXY="off", GOSUMDB="off", GOTOOLCHAIN="local", CGO_CFLAGS="-w", GOFLAGS="")
@@ -186,7 +203,7 @@ class Ctx:
 
     def vh(self, sub, cases, timeout=600, binary=None, args=""):
         """Run harness subcommand on JSON cases -> list of observations (None if the run failed)."""
-        binary = binary or os.path.join(BUILD, "vh")
+        binary = binary or getattr(self, "vh_bin", None) or os.path.join(BUILD, "vh")
         inp = "".join(json.dumps(c) + "\n" for c in cases).encode()
         rc, out, err, dt = sh("%s %s %s" % (binary, sub, args), inp=inp, timeout=timeout)
         if rc != 0:
@@ -248,10 +265,29 @@ def filter_go_noise(s):
 
 
 def load_known():
-    p = os.path.join(VERIF, "known_findings.json")
-    if not os.path.exists(p):
-        return []
-    return json.load(open(p))["findings"]
+    """Known findings: every known_findings.d/*.json (committed; never written at run time)."""
+    res = []
+    d = os.path.join(VERIF, "known_findings.d")
+    if os.path.isdir(d):
+        for fn in sorted(os.listdir(d)):
+            if fn.endswith(".json"):
+                res += json.load(open(os.path.join(d, fn)))["findings"]
+    return res
+
+
+def ensure_coq_makefile():
+    """_CoqProject lists every .v under theories/ (sorted); regenerate the Makefile when it changes."""
+    files = []
+    for root, _, fs in os.walk(os.path.join(COQ, "theories")):
+        for fn in fs:
+            if fn.endswith(".v"):
+                files.append(os.path.relpath(os.path.join(root, fn), COQ))
+    files.sort()
+    text = "-Q theories OBI\n-arg -w -arg -notation-overridden,-deprecated-hint-without-locality,-deprecated-instance-without-locality\n" + "\n".join(files) + "\n"
+    p = os.path.join(COQ, "_CoqProject")
+    if not os.path.exists(p) or open(p).read() != text or not os.path.exists(os.path.join(COQ, "Makefile")):
+        open(p, "w").write(text)
+        sh("coq_makefile -f _CoqProject -o Makefile", cwd=COQ)
 
 
 def parse_nat_list(out):
